@@ -86,6 +86,12 @@ def floor(tier):
     out.append({"chain": [_spec([0], [0], 1, 1)], "seed": 10, "ncol": 1})
     out.append({"chain": [_spec([4, 3, 2, 1, 0], None, None, 5)], "seed": 11, "ncol": 3})
     out.append({"chain": [_spec([1, 3, 0, 2, 4], [2, 0, 4, 1, 3], 5, 5)], "seed": 12, "ncol": 5})
+    # long equally spaced index sets: reversal of 20 entries, descending stride 2 down to 0
+    out.append({"chain": [_spec(list(range(19, -1, -1)), None, None, 20)], "seed": 18, "ncol": 2})
+    out.append({"chain": [_spec(list(range(38, -1, -2)), None, None, 40)], "seed": 19, "ncol": 2})
+    out.append({"chain": [_spec(list(range(0, 48, 3)), None, None, 50)], "seed": 20, "ncol": 1})
+    out.append({"chain": [_spec(list(range(24, 0, -1)), list(range(24)), 24, 25)], "seed": 21,
+                "ncol": 2})
     # empty index sets with explicit sizes
     out.append({"chain": [_spec([], [], 3, 4)], "seed": 13, "ncol": 2})
     # chains: restriction of a prolongation, three slicers, with transposes
@@ -102,7 +108,23 @@ def floor(tier):
 
 def _random_spec(rng, ds, big=False):
     """A slicer specification acting on a domain of size ``ds``; returns (spec, range size)."""
-    kind = rng.choice(["perm", "restrict", "inject", "partial", "range_only", "onto_sorted"])
+    kind = rng.choice(["perm", "restrict", "inject", "partial", "range_only", "onto_sorted",
+                       "progression"])
+    if kind == "progression" and ds < 4:
+        kind = "perm"
+    if kind == "progression":
+        # equally spaced domain indices (a vector component in natural or reversed cell
+        # order, a reversal permutation): ascending or descending, any stride, reaching the
+        # first / last entry or not - structured index sets invite slice-based shortcuts
+        step = int(rng.integers(1, max(2, ds // 4) + 1))
+        m = int(rng.integers(2, (ds - 1) // step + 2))
+        first = int(rng.integers(0, ds - (m - 1) * step))
+        if rng.random() < 0.6:
+            first = 0 if rng.random() < 0.5 else ds - 1 - (m - 1) * step
+        dom = first + step * np.arange(m)
+        if rng.random() < 0.6:
+            dom = dom[::-1]
+        return _spec(dom, None, None, _maybe(rng, ds, dom)), m
     if kind == "perm":
         dom = rng.permutation(ds)
         rg = rng.permutation(ds)
